@@ -34,7 +34,7 @@ const hcDomain = "hc.probe.test."
 
 var allStates = []string{
 	"up", "up", "up", "silent", "refuse", "close", "wrong-id", "wrong-name", "wrong-type", "two-questions",
-	"tc-then-tcp", "garbage", "short", "cut", "ancount", "servfail", "nxdomain", "dup", "error-without-question", "wrong-id-then-tcp-closes", "truncated-wrong-id",
+	"tc-then-tcp", "garbage", "short", "cut", "ancount", "servfail", "nxdomain", "dup", "nxdomain-dup", "error-without-question", "wrong-id-then-tcp-closes", "truncated-wrong-id",
 }
 
 // classOn is the class of a state for an upstream configured with network nw.
@@ -53,7 +53,7 @@ func classOn(state string, nw forward.Network) string {
 		// stops at the end of the message and yields the records that are
 		// there (none), so this is a valid empty NOERROR reply.
 		return "valid-empty"
-	case "servfail", "nxdomain":
+	case "servfail", "nxdomain", "nxdomain-dup":
 		return "valid-rcode"
 	case "silent", "refuse", "close", "wrong-id-then-tcp-closes":
 		// (The last one: the datagram is rejected, the retry over TCP ends
@@ -153,7 +153,7 @@ func (u *upstream) wantFrom(name string) string {
 	switch st := u.getState(); st {
 	case "servfail":
 		return "rcode2"
-	case "nxdomain":
+	case "nxdomain", "nxdomain-dup":
 		return "rcode3"
 	case "ancount":
 		return "rcode0"
@@ -346,6 +346,18 @@ func (u *upstream) reply(req *dns.Msg, tr string) (raw [][]byte, closeAfter bool
 		m.Answer = nil
 
 		return [][]byte{pack(m)}, false
+	case "nxdomain-dup":
+		// A negative answer that arrives twice: the second copy waits in the
+		// socket for whoever uses it next.
+		m := good()
+		m.Rcode = dns.RcodeNameError
+		m.Answer = nil
+		b := pack(m)
+		if tr == "udp" {
+			return [][]byte{b, b}, false
+		}
+
+		return [][]byte{b}, false
 	}
 
 	panic("bad state " + state)
@@ -584,7 +596,7 @@ func run(s *kernel.Sim, prop, cfg string) {
 
 	states := allStates
 	if prop == "C06" {
-		states = []string{"up", "up", "up", "garbage", "short", "cut", "cut", "ancount", "wrong-name", "two-questions", "tc-then-tcp", "dup", "wrong-id-then-tcp-closes"}
+		states = []string{"up", "up", "up", "garbage", "short", "cut", "cut", "ancount", "wrong-name", "two-questions", "tc-then-tcp", "dup", "nxdomain-dup", "wrong-id-then-tcp-closes"}
 	}
 
 	ctx := dnsserver.ContextWithServerInfo(context.Background(), &dnsserver.ServerInfo{Name: "sim", Addr: "x", Proto: dnsserver.ProtoDNS})
@@ -688,6 +700,9 @@ func run(s *kernel.Sim, prop, cfg string) {
 		h = forward.NewHandler(hconf)
 	}
 
+	// In some runs every query has the same ID: a stale reply can then be told
+	// from the right one by its question only.
+	sameIDs := t.Chance(1, 3, "same-ids")
 	nOps := t.Range(3, 30, "ops")
 	qn := 0
 	for i := 0; i < nOps && s.Failed() == nil; i++ {
@@ -752,6 +767,10 @@ func run(s *kernel.Sim, prop, cfg string) {
 			a := &asked{name: fmt.Sprintf("q%d.query.test.", qn), req: &dns.Msg{}, w: &rw{}}
 			a.req.SetQuestion(a.name, dns.TypeA)
 			a.req.Id = uint16(7000 + qn)
+			if sameIDs {
+				// As the clients of DoH and DoQ do.
+				a.req.Id = 0
+			}
 			if huge {
 				a.req.SetEdns0(4096, false)
 				a.req.IsEdns0().Option = append(a.req.IsEdns0().Option, &dns.EDNS0_PADDING{Padding: make([]byte, 65500)})
